@@ -5,9 +5,10 @@ open MosnVerif.Gen.ProxyPhase MosnVerif.Gen.ProxyReason MosnVerif.Gen.ProxyRetry
 
 /-- what `doRetry` leaves behind: new upstream request, new streams/ledger, trace, flags and timers -/
 def retried (s : S) (upv : Option (Option Nat)) (sts : List Stream) (rq ua : Int) (t : List Ev) (fn : List PoolFail)
-    (ur : Bool) (rr : Reason) (nt pt gt : Bool) : S :=
+    (ur : Bool) (rr : Reason) (nt pt gt : Bool) (gg : Nat) : S :=
   { s with up := upv, setupRetry := false, streams := sts, requests := rq, upActive := ua, trace := t, failNext := fn,
-           upReset := ur, resetReason := rr, notify := nt, perTry := pt, global := gt, reqSent := true, recvDone := true }
+           upReset := ur, resetReason := rr, notify := nt, perTry := pt, global := gt, reqSent := true, recvDone := true,
+           gtGen := gg }
 
 /-- facts the retry phase starts from -/
 structure RetryCtx (c : Cfg) (s : S) : Prop where
@@ -54,7 +55,7 @@ theorem retryCtx {c : Cfg} {ar aq : Nat} {s : S} (h : Inv c ar aq s) (hrun : s.r
 /-- the end of the retry phase for the state `retried …` -/
 theorem finish_retried (c : Cfg) (ar aq : Nat) (s : S) (h : Inv c ar aq s) (hrun : s.running = true) (hp : s.phase = .Retry)
     (x : RetryCtx c s) (upv : Option (Option Nat)) (sts : List Stream) (rq ua : Int) (t : List Ev) (fn : List PoolFail)
-    (ur : Bool) (rr : Reason) (nt pt gt : Bool)
+    (ur : Bool) (rr : Reason) (nt pt gt : Bool) (gg : Nat)
     (hled : LedgerOk c aq { s with up := upv, streams := sts, requests := rq, upActive := ua })
     (h22 : liveAreCounted sts = true)
     (hups : upv.isSome = true)
@@ -64,9 +65,9 @@ theorem finish_retried (c : Cfg) (ar aq : Nat) (s : S) (h : Inv c ar aq s) (hrun
     (hntb : nt = true → ur = true ∨ s.downReset = true ∨ s.urr = true)
     (hlc : ur = true ∨ s.downReset = true → liveCount sts = 0)
     (hexp : ur = true → s.upReset = false → s.globalExpired = false) :
-    Inv c ar aq (finishPhase c (retried s upv sts rq ua t fn ur rr nt pt gt)) := by
+    Inv c ar aq (finishPhase c (retried s upv sts rq ua t fn ur rr nt pt gt gg)) := by
   obtain ⟨hcl, how, hup, hrs, hlc0, hdead, hpt0, hure, hurr, hexp0, hps, hrst, hsr, hdir, hpd, hgl0⟩ := x
-  have hb1 : Base c ar aq (retried s upv sts rq ua t fn ur rr nt pt gt) := by
+  have hb1 : Base c ar aq (retried s upv sts rq ua t fn ur rr nt pt gt gg) := by
     obtain ⟨k1, k2, k4, k9, k10, k11, k12, k13, k14, k20, k21, k22, k31⟩ := h.base
     refine ⟨?_, ?_, ?_, k9, hled.1, hled.2.1, k12, ?_, hled.2.2, ?_, ?_, ?_, ?_⟩
     · simpa [K1, retried, ht1] using k1
@@ -78,7 +79,7 @@ theorem finish_retried (c : Cfg) (ar aq : Nat) (s : S) (h : Inv c ar aq s) (hrun
     · intro ho; rw [how] at ho; cases ho
     · intro _; exact h22
     · intro _; exact hups
-  have h3' : K3 (retried s upv sts rq ua t fn ur rr nt pt gt) := by simpa [K3, retried, ht1] using h.k3
+  have h3' : K3 (retried s upv sts rq ua t fn ur rr nt pt gt gg) := by simpa [K3, retried, ht1] using h.k3
   apply finish_plain c ar aq _ hb1 hrun hcl h3' h.k6 hpd rfl hdir
   · intro _; exact ⟨hps, hrst⟩
   · intro _ ho; rw [how] at ho; cases ho
@@ -170,6 +171,8 @@ theorem upAppendHeaders_ok (c : Cfg) (s : S) (eos : Bool) (hpd : processDone s =
 /-- the timers after `doRetry` -/
 def retryPt (c : Cfg) (s : S) : Bool := s.perTry || c.tryTimeout
 def retryGt (c : Cfg) (s : S) : Bool := if retryArmsGlobalWhenUnsent && !s.reqSent then true else s.global
+/-- the number of global timers armed so far after `doRetry`: one more exactly when the request had not been sent yet -/
+def retryGg (s : S) : Nat := if retryArmsGlobalWhenUnsent && !s.reqSent then s.gtGen + 1 else s.gtGen
 
 /-- phase `Retry` -/
 theorem inv_work_retry (c : Cfg) (ar aq : Nat) (s : S) (h : Inv c ar aq s) (hrun : s.running = true)
@@ -246,12 +249,12 @@ theorem inv_work_retry (c : Cfg) (ar aq : Nat) (s : S) (h : Inv c ar aq s) (hrun
           let s := if (retryArmsGlobalWhenUnsent && !s.reqSent) = true then onUpstreamRequestSent c s else setupPerReqTimeout c s;
           ({ s with reqSent := true, recvDone := true } : S)) =
           retried s (some none) s.streams s.requests s.upActive s.trace s.failNext s.upReset s.resetReason s.notify
-            (retryPt c s) (retryGt c s) := by
+            (retryPt c s) (retryGt c s) (retryGg s) := by
         have hp1 : processDone ({ s with up := some none, setupRetry := false } : S) = true := hpdn
         simp only [upAppendHeaders, hp1, if_true]
         have d1 : ∀ e, dataTrace ({ s with up := some none, setupRetry := false } : S) e = s.trace := fun e => dataTrace_done _ e hp1
         cases hd : c.hasData <;> cases ht : c.hasTrailers <;>
-          simp [upAppendData, upAppendTrailers, d1, dataTrace_done, processDone, hpdn, retried, retryPt, retryGt,
+          simp [upAppendData, upAppendTrailers, d1, dataTrace_done, processDone, hpdn, retried, retryPt, retryGt, retryGg,
             onUpstreamRequestSent, setupPerReqTimeout, harm, how] <;>
           cases hq : s.reqSent <;> simp [hq]
       rw [e]
@@ -311,13 +314,13 @@ theorem inv_work_retry (c : Cfg) (ar aq : Nat) (s : S) (h : Inv c ar aq s) (hrun
             ({ s with reqSent := true, recvDone := true } : S)) =
             retried s (some none) (s.streams ++ [(⟨false, false, false, false⟩ : Stream)]) s.requests s.upActive
               (s.trace ++ [Ev.uf s.streams.length f]) (s.failNext.drop 1) true (failReason f) true
-              (retryPt c s) (retryGt c s) := by
+              (retryPt c s) (retryGt c s) (retryGg s) := by
           have e1 := upAppendHeaders_fail c ({ s with up := some none, setupRetry := false } : S) (!c.hasData && !c.hasTrailers) f hp1 hout
           simp only [e1]
           have d1 : ∀ (z : S) e, z.upReset = true → dataTrace z e = z.trace := by
             intro z e hz; exact dataTrace_done z e (by simp [processDone, hz])
           cases hd : c.hasData <;> cases ht : c.hasTrailers <;>
-            simp [upOnResetStream, hnf.1, upAppendData, upAppendTrailers, d1, retried, retryPt, retryGt,
+            simp [upOnResetStream, hnf.1, upAppendData, upAppendTrailers, d1, retried, retryPt, retryGt, retryGg,
               onUpstreamRequestSent, setupPerReqTimeout, harm, how] <;>
             cases hq : s.reqSent <;> simp [hq]
         rw [e]
@@ -351,7 +354,7 @@ theorem inv_work_retry (c : Cfg) (ar aq : Nat) (s : S) (h : Inv c ar aq s) (hrun
               (((s.trace ++ [Ev.un s.streams.length]) ++ [Ev.uh s.streams.length (!c.hasData && !c.hasTrailers)]) ++
                 (if c.hasData then [Ev.ud s.streams.length (!c.hasTrailers)] else []) ++
                 (if c.hasTrailers then [Ev.ut s.streams.length] else []))
-              (s.failNext.drop 1) s.upReset s.resetReason s.notify (retryPt c s) (retryGt c s) := by
+              (s.failNext.drop 1) s.upReset s.resetReason s.notify (retryPt c s) (retryGt c s) (retryGg s) := by
           have e1 := upAppendHeaders_ok c ({ s with up := some none, setupRetry := false } : S) (!c.hasData && !c.hasTrailers) hp1 hout
           simp only [e1]
           have d2 : ∀ (z : S) e, z.procDone = false → z.downReset = false → z.upReset = false →
@@ -359,7 +362,7 @@ theorem inv_work_retry (c : Cfg) (ar aq : Nat) (s : S) (h : Inv c ar aq s) (hrun
             intro z e h1 h2 h3 h4
             exact dataTrace_live z e _ (by simp [processDone, h1, h2, h3]) (by simp [curStream, h4])
           cases hd : c.hasData <;> cases ht : c.hasTrailers <;>
-            simp [upAppendData, upAppendTrailers, d2, hpd, hnf.1, hnf.2, retried, retryPt, retryGt,
+            simp [upAppendData, upAppendTrailers, d2, hpd, hnf.1, hnf.2, retried, retryPt, retryGt, retryGg,
               onUpstreamRequestSent, setupPerReqTimeout, harm, how] <;>
             cases hq : s.reqSent <;> simp [hq]
         rw [e]
